@@ -54,6 +54,9 @@ def work(case):
                 pos = s.end
             out["spans_ok"] = ok and pos == len(out["map_raw"])
         out["indexed"] = indexed_edit_case(case, data, out["raw"])
+        ix = out["indexed"]
+        out["hyp"] = {"indexed_edit": bool(ix), "indexed_edit_inside_pending_insertion": bool(ix and ix.get("in_ins")),
+                      "indexed_edit_crossing_line_break": bool(ix and ix.get("crosses_break"))}
     except Exception as e:
         out["err"] = f"{type(e).__name__}: {e}"
     return out
@@ -85,7 +88,8 @@ def indexed_edit_case(case, data, raw):
             i, j = rng.choice(cross)
         a, b = words[i][0], words[j][1]
         seg = pv.chars[a:b]
-        if any(c["state"] != "plain" for c in seg) or len({c["comments"] for c in seg}) > 1:
+        in_ins = all(c["state"] == "ins" for c in seg) and len({c["rid"] for c in seg}) == 1
+        if (any(c["state"] != "plain" for c in seg) and not in_ins) or len({c["comments"] for c in seg}) > 1:
             continue
         ta, tb = raw.find(words[i][2]), raw.find(words[j][2]) + len(words[j][2])
         if not (0 <= ta < tb) or "\n\n" in raw[ta:tb] or " | " in raw[ta:tb]:
@@ -101,7 +105,8 @@ def indexed_edit_case(case, data, raw):
         exp = "".join(c["c"] for c in pv.chars[:a] if c["state"] != "del") + new + "".join(c["c"] for c in pv.chars[b:] if c["state"] != "del")
         return {"edit": {"target": edit["target"], "new": new, "index": ta}, "pi": pv.pi, "expected": exp,
                 "res": {k: v for k, v in r.items() if k != "out_bytes"},
-                "crosses_break": any(c["c"] == "\n" for c in seg), "crosses_runs": len({c["run"] for c in seg}) > 1}
+                "crosses_break": any(c["c"] == "\n" for c in seg), "crosses_runs": len({c["run"] for c in seg}) > 1,
+                "in_ins": in_ins}
     return None
 
 
@@ -125,7 +130,10 @@ def oracle_indexed(res):
         fails.append(f"an edit addressed by the range [{ix['edit']['index']}, +{len(ix['edit']['target'])}) of the extracted text "
                      f"({ix['edit']['target']!r} -> {ix['edit']['new']!r}) did not change exactly those characters: paragraph {k} is "
                      f"{got[k] if k is not None and k < len(got) else None!r}, expected {exp[k] if k is not None else None!r}")
-    fails.extend(engine_oracles.oracle_reversible(res["case"]["doc"], r["out_doc"])[:1])
+    if not ix.get("in_ins"):
+        # (a range inside another reviewer's pending insertion rewrites that insertion: rejecting this run's marks
+        # cannot bring the other reviewer's mark back - the exception stated in C01)
+        fails.extend(engine_oracles.oracle_reversible(res["case"]["doc"], r["out_doc"])[:1])
     return fails
 
 
